@@ -296,6 +296,17 @@ pub fn check(directed: bool, ls: &Lists, vals: &[(usize, i64)], spec: &SearchSpe
             }
         }
     }
+    // C08: a transposed run reports stored edges: Edge(v, u, e) must be an entry (v, e) of u's OUTGOING list
+    if has("c08") && tr {
+        let stored = |x: &Tri| ls.iter().find(|n| n.key == x.1).map_or(false, |n| n.out.contains(&(x.0, x.2)));
+        let reported = out.trace.iter().chain(out.path.iter().flatten()).chain(out.list_edges.iter());
+        for t in reported {
+            if !stored(t) {
+                fails.push(("c08".into(), format!("{} {} transposed: reports Edge({}, {}, {}) but node {} stores no outgoing edge to {} with value {}", spec.kind, spec.mode, t.0, t.1, t.2, t.1, t.0, t.2)));
+                break;
+            }
+        }
+    }
     // ---- C09: cycles
     if (has("c09") || has("c08") || c07_filter) && is_search && spec.mode == "cycle" {
         let name = if has("c09") { "c09" } else if has("c08") { "c08" } else { "c07" };
